@@ -66,8 +66,20 @@ func (e *Enc) encodeCall(fr *frame, st *bstate, res ssa.Value, call *ssa.CallCom
 			bindings = append(bindings, e.val(b))
 		}
 	}
+	if funcKey(callee) == "errors#As" && len(call.Args) == 2 {
+		bind(e.encodeErrorsAs(st, call, pos))
+		return
+	}
 	if c := e.P.contractFor(callee); c != nil && !c.hasOpt("inline") {
-		bind(e.applyContract(fr, st, c, callee, nil, args, resType, pos))
+		if funcKey(callee) == "sync#(*Mutex).Unlock" && len(call.Args) == 1 {
+			e.monitorInv(fr, st, call.Args[0], true, pos)
+		}
+		rv := e.applyContract(fr, st, c, callee, nil, args, resType, pos)
+		if funcKey(callee) == "sync#(*Mutex).Lock" && len(call.Args) == 1 {
+			e.afterLock(st, call.Args[0])
+			e.monitorInv(fr, st, call.Args[0], false, pos)
+		}
+		bind(rv)
 		return
 	}
 	if e.canInline(callee) {
@@ -598,4 +610,190 @@ func (e *Enc) encodeCopy(st *bstate, call *ssa.CallCommon, resType types.Type, p
 	nv := e.newHeapVersion(st, c)
 	e.assume(st.reach, sEq(nv, sIte(sEq(n, "0"), old, app("store", old, app("sbase", dst), arr))))
 	return Val{T: n, Typ: resType}
+}
+
+// errAsPred names the predicate "errors.As(err, *T) succeeds" for target element type T.
+func (e *Enc) errAsPred(t types.Type) string {
+	n := "errAs!" + shortTypeName(t)
+	e.W.declare(n, fmt.Sprintf("(declare-fun %s (Iface) Bool)\n(assert (not (%s nil!iface)))", n, n))
+	return n
+}
+
+// encodeErrorsAs models errors.As(err, &target): the result is a fixed (uninterpreted)
+// predicate of err, false for nil; the target variable is overwritten arbitrarily.
+func (e *Enc) encodeErrorsAs(st *bstate, call *ssa.CallCommon, pos token.Pos) Val {
+	errT := e.term(st, call.Args[0])
+	mi, ok := call.Args[1].(*ssa.MakeInterface)
+	if !ok {
+		e.unknownCall(st, "errors#As (target not statically known)", pos)
+		return e.freshVal(st, types.Typ[types.Bool], "erras")
+	}
+	pt, ok := mi.X.Type().Underlying().(*types.Pointer)
+	if !ok {
+		e.unknownCall(st, "errors#As (target not a pointer)", pos)
+		return e.freshVal(st, types.Typ[types.Bool], "erras")
+	}
+	e.externs["errors#As (result = fixed predicate of the error, false for nil; target overwritten)"] = true
+	tv := e.val(mi.X)
+	if tv.Loc != nil {
+		e.storeLoc(st, tv.Loc, e.freshVal(st, pt.Elem(), "erras.target").T)
+	} else if e.W.structInfo(pt.Elem()) != nil {
+		e.storeStruct(st, tv.T, pt.Elem(), e.freshVal(st, pt.Elem(), "erras.target").T)
+	} else {
+		e.storeLoc(st, &Loc{Comp: e.W.cellComp(pt.Elem()), Idx: []string{tv.T}, Typ: pt.Elem()}, e.freshVal(st, pt.Elem(), "erras.target").T)
+	}
+	return Val{T: app(e.errAsPred(pt.Elem()), errT), Typ: types.Typ[types.Bool]}
+}
+
+// guardsFor returns the guard declarations of struct type t.
+func (e *Enc) guardsFor(t types.Type) []*Guard {
+	var out []*Guard
+	for _, g := range e.P.reg.Guards {
+		gt, err := e.evalType(g.TypeText, e.P.tpkgs[g.Pkg])
+		if err != nil {
+			e.errors = append(e.errors, fmt.Sprintf("%s: guarded: %v", g.Src, err))
+			continue
+		}
+		if types.Identical(gt, types.Unalias(t)) {
+			out = append(out, g)
+		}
+	}
+	return out
+}
+
+func fieldIndex(st *types.Struct, name string) int {
+	for i := 0; i < st.NumFields(); i++ {
+		if st.Field(i).Name() == name {
+			return i
+		}
+	}
+	return -1
+}
+
+// afterLock: acquiring a mutex makes everything it guards unknown (other
+// goroutines may have changed it while the lock was free): the guarded fields of
+// the owner and, one level down, the contents of the maps and slices they hold.
+func (e *Enc) afterLock(st *bstate, mu ssa.Value) {
+	fa, ok := mu.(*ssa.FieldAddr)
+	if !ok {
+		return
+	}
+	ot := fa.X.Type().Underlying().(*types.Pointer).Elem()
+	si := e.W.structInfo(ot)
+	owner := e.val(fa.X)
+	if si == nil || owner.Loc != nil {
+		return
+	}
+	muName := si.St.Field(fa.Field).Name()
+	for _, g := range e.guardsFor(ot) {
+		if g.Mutex != muName {
+			continue
+		}
+		for _, fn := range g.Fields {
+			fi := fieldIndex(si.St, fn)
+			if fi < 0 {
+				e.errors = append(e.errors, fmt.Sprintf("%s: guarded field %s not found", g.Src, fn))
+				continue
+			}
+			ft := si.St.Field(fi).Type()
+			if e.W.structInfo(ft) != nil {
+				continue // nested struct by value: its fields are separate components (not havocked here)
+			}
+			c := e.W.fieldComp(si.Type, fi)
+			old := e.heapVar(st, c)
+			nvv := e.freshVal(st, ft, "lock."+fn)
+			e.assumeAllocated(st, nvv)
+			nv := e.newHeapVersion(st, c)
+			e.assert(sEq(nv, app("store", old, owner.T, nvv.T)))
+			switch u := ft.Underlying().(type) {
+			case *types.Map:
+				d, v, l := e.W.mapComps(u)
+				for _, mc := range []*Comp{d, v, l} {
+					o := e.heapVar(st, mc)
+					n := e.newHeapVersion(st, mc)
+					k := e.fresh("lock.map", arrayRange(mc.Sort))
+					e.assert(sEq(n, sIte(sEq(nvv.T, "0"), o, app("store", o, nvv.T, k))))
+					if mc == l {
+						e.assert(app(">=", k, "0"))
+					}
+				}
+			case *types.Slice:
+				ec := e.W.elemComp(u.Elem())
+				o := e.heapVar(st, ec)
+				n := e.newHeapVersion(st, ec)
+				k := e.fresh("lock.elems", arrayRange(ec.Sort))
+				e.assert(sEq(n, sIte(sEq(app("sbase", nvv.T), "0"), o, app("store", o, app("sbase", nvv.T), k))))
+			}
+		}
+	}
+}
+
+// guardCheck: an access to a guarded field needs the guarding mutex (unless the
+// object was allocated by this very function and is not shared yet).
+func (e *Enc) guardCheck(st *bstate, fa *ssa.FieldAddr, base string) {
+	ot := fa.X.Type().Underlying().(*types.Pointer).Elem()
+	si := e.W.structInfo(ot)
+	if si == nil {
+		return
+	}
+	fname := si.St.Field(fa.Field).Name()
+	for _, g := range e.guardsFor(ot) {
+		for _, f := range g.Fields {
+			if f != fname {
+				continue
+			}
+			mi := fieldIndex(si.St, g.Mutex)
+			if mi < 0 {
+				continue
+			}
+			gh := e.P.reg.Ghosts["held"]
+			if gh == nil {
+				e.errors = append(e.errors, "guarded fields need the ghost 'held' (sync contracts)")
+				return
+			}
+			hc := e.ghostComp(gh)
+			e.W.needRoot()
+			goal := sOr(app("select", e.heapVar(st, hc), e.subRef(ot, mi, base)), app(">", app("root", base), e.entryAlloc))
+			e.oblige(st, "lock", e.anchor(fa.Pos(), "guarded field "+fname), goal, fa.Pos())
+		}
+	}
+}
+
+// monitorInv asserts (check=true, before Unlock) or assumes (after Lock) the monitor
+// invariants attached to the mutex field addressed by mu.
+func (e *Enc) monitorInv(fr *frame, st *bstate, mu ssa.Value, check bool, pos token.Pos) {
+	fa, ok := mu.(*ssa.FieldAddr)
+	if !ok {
+		return
+	}
+	ot := fa.X.Type().Underlying().(*types.Pointer).Elem()
+	si := e.W.structInfo(ot)
+	owner := e.val(fa.X)
+	if si == nil || owner.Loc != nil {
+		return
+	}
+	muName := si.St.Field(fa.Field).Name()
+	for i, m := range e.P.reg.Monitors {
+		mt, err := e.evalType(m.TypeText, e.P.tpkgs[m.Pkg])
+		if err != nil || !types.Identical(mt, types.Unalias(ot)) || m.Mutex != muName {
+			continue
+		}
+		env := e.newSpecEnv(fr, st)
+		env.pkg = e.P.tpkgs[m.Pkg]
+		env.entryOnly = true
+		env.binders["self"] = SVal{T: owner.T, Typ: fa.X.Type(), Sort: "Int"}
+		f, err := env.formula(m.Expr)
+		if err != nil {
+			e.errors = append(e.errors, fmt.Sprintf("%s: monitor: %v", m.Src, err))
+			continue
+		}
+		if check {
+			o := e.oblige(st, "monitor", fmt.Sprintf("%s.%d@%s", shortTypeName(ot), i, e.anchor(pos, "unlock")), f, pos)
+			if o != nil {
+				o.Detail = m.Text
+			}
+		} else {
+			e.assume(st.reach, f)
+		}
+	}
 }
